@@ -126,9 +126,8 @@ def required(version, c):
 
 
 def r1_tables(res, facts):
-    r = res.rule('C04-R1', 'special-character tables x CharFunctor predicates give, for every code unit the tables cover, '
-                 'the outcome (raw / entity / character reference / error) the XML 1.0 and 1.1 productions and end-of-line / '
-                 'attribute normalisation rules require', floor=2 * 3 * 128)
+    r = res.rule('C04-R1', 'special-character tables: s_lastSpecial + 1 equals the table length, and no code unit below 0x80 (1.0) / 0xA0 (1.1) is left to the '
+                 '"range" path that never escapes or rejects; what each cell makes the serializer do is decided by R1c', floor=256)
     for ver, functor in (('1_0', 'CharFunctor1_0'), ('1_1', 'CharFunctor1_1')):
         p, tabs = predicates(facts, functor)
         tname = SB + functor + '::s_specialChars'
@@ -144,22 +143,14 @@ def r1_tables(res, facts):
                 if c < lo_needed:
                     r.violation('%s cell 0x%02X' % (functor, c), 'code unit below 0x%X is classified "range" (never escaped or rejected)' % lo_needed, facts.table(tname)['loc'])
                 continue
-            rc, ra, rm = required(ver, c)
-            for what, got, allowed in (('content', outcome_content(p, c), rc), ('attribute', outcome_attr(p, c), ra), ('comment/PI/CDATA', outcome_markup(p, c), rm)):
-                site = '%s cell 0x%02X %s' % (functor, c, what)
-                if got in allowed:
-                    r.ok(site, got)
-                else:
-                    r.violation(site, 'U+%04X in %s under XML %s: serializer outcome %s, Recommendation requires %s (cell value %d)' %
-                                (c, what, ver.replace('_', '.'), got, '/'.join(sorted(allowed)), tab[c] if c < len(tab) else -1), facts.table(tname)['loc'])
+            r.ok('%s cell 0x%02X handled by the table' % (functor, c))
     return r
 
 
 def r1b_model(res, facts):
     """the outcome model used by R1 is the decision structure of the serializer: checked on the CFGs"""
-    r = res.rule('C04-R1b', 'FormatterToXMLUnicode consults the predicates the way R1 models it: numeric character references are written '
-                 'only where isForbidden is false, forbidden characters reach throwInvalidXMLCharacterException, raw writes in comment/PI/CDATA '
-                 'happen only where isCharRefForbidden is false', floor=12)
+    r = res.rule('C04-R1b', 'CDATA sections: a character is handed to the writer only where isCharRefForbidden is false, and a forbidden one reaches '
+                 'throwInvalidXMLCharacterException', floor=12)
     tmpl = 'FormatterToXMLUnicode'
     insts = [k for k in facts.astidx if facts.F.get(k, {}).get('clsq', '') == 'xalanc_1_12::FormatterToXMLUnicode']
     byfn = {}
@@ -172,13 +163,8 @@ def r1b_model(res, facts):
             raise AnalysisBroken('FormatterToXMLUnicode::%s has no instantiation' % fname)
         return ks
     # (function, guarded callee, guard predicate, required branch)
-    specs = [('writeDefaultEscape', 'writeNumericCharacterReference', 'isForbidden', False),
-             ('writeDefaultEscape', 'throwInvalidXMLCharacterException', 'isForbidden', True),
-             ('writeDefaultAttributeEscape', 'writeNumericCharacterReference', 'isForbidden', False),
-             ('writeDefaultAttributeEscape', 'throwInvalidXMLCharacterException', 'isForbidden', True),
-             ('writeNormalizedChar', 'write', 'isCharRefForbidden', False),
-             ('writeNormalizedChar', 'throwInvalidXMLCharacterException', 'isCharRefForbidden', True),
-             ('writeCDATAChars', 'writeCDATAChar', 'isCharRefForbidden', False),
+    # the per-character escape functions are interpreted by R1c; the CDATA loop is not (it is a loop), so its two guards are checked here
+    specs = [('writeCDATAChars', 'writeCDATAChar', 'isCharRefForbidden', False),
              ('writeCDATAChars', 'throwInvalidXMLCharacterException', 'isCharRefForbidden', True)]
     for fname, target, pred, branch in specs:
         for k in each(fname):
@@ -693,3 +679,117 @@ def run(res, facts, tier):
     r3_cdata(res, facts)
     r4_instantiations(res, facts)
     r5_names(res, facts)
+
+
+# ----------------------------------------------------------------------------------------------- derived escape outcomes (replaces the frozen model of R1)
+class _Thrown(Exception):
+    pass
+
+
+def escape_outcome(facts, inst_usrs, fname, args_by_name, preds):
+    """Interpret FormatterToXMLUnicode<...>::<fname> (and the members of the same instantiation it calls) for concrete arguments.
+    Returns the list of output events: ENTITY / NEWLINE / CHARREF / RAW / ERROR."""
+    from ..mast import Machine, Unsupported as _U, strip_casts as _sc
+    events = []
+
+    def run_fn(usr, argvals, depth):
+        a = facts.ast(usr)
+        env = {}
+        for p, v in zip(a['params'], argvals):
+            env[p['id']] = v
+
+        def hook(m, c):
+            n = c.get('n') or ''
+            o = _sc(c.get('obj')) if c.get('obj') is not None else None
+            if c['k'] == 'MCall' and o is not None and o.get('k') == 'Member' and o.get('m') == 'm_charPredicate' and n in preds:
+                v = m.ev(c['args'][0])
+                return int(preds[n][v])
+            if c['k'] == 'MCall' and o is not None and o.get('k') == 'Member' and o.get('m') == 'm_writer':
+                if n in ('write', 'writeSafe', 'writeCDATAChar'):
+                    a0 = _sc(c['args'][0]) if c['args'] else None
+                    if a0 is not None and a0.get('k') == 'Member' and 'EntityString' in a0.get('m', ''):
+                        events.append('ENTITY')
+                    else:
+                        events.append('RAW')
+                    return 0
+                if n == 'outputNewline':
+                    events.append('NEWLINE'); return 0
+                return 0
+            if n == 'outputNewline':
+                events.append('NEWLINE'); return 0
+            if n == 'writeNumericCharacterReference':
+                events.append('CHARREF'); return 0
+            if n.startswith('throwInvalid'):
+                events.append('ERROR'); raise _Thrown()
+            if n in ('getMemoryManager',):
+                return 0
+            tgt = c.get('usr')
+            if c['k'] == 'MCall' and (o is None or o.get('k') == 'This') and tgt in inst_usrs and depth < 6:
+                return run_fn(tgt, [m.ev(x) for x in c['args']], depth + 1)
+            return NotImplemented
+        m = Machine(env, call_hook=hook)
+        return m.call(a['body'])
+    start = [u for u in inst_usrs if facts.F[u]['name'].split('::')[-1] == fname]
+    if not start:
+        raise AnalysisBroken('FormatterToXMLUnicode::%s not instantiated' % fname)
+    a = facts.ast(start[0])
+    argvals = [args_by_name.get(p['n'], 0) for p in a['params']]
+    try:
+        run_fn(start[0], argvals, 0)
+    except _Thrown:
+        pass
+    except _U as u:
+        raise AnalysisBroken('FormatterToXMLUnicode::%s uses a construct outside the interpreted subset: %s' % (fname, u))
+    return events
+
+
+def r1c_derived(res, facts):
+    r = res.rule('C04-R1c', 'escape outcomes derived from the code: FormatterToXMLUnicode::writeDefaultEscape / writeDefaultAttributeEscape / writeNormalizedChar are interpreted '
+                 '(with the helpers they call) for every code unit the predicates send to them, and the events they raise must be the ones the XML rules require', floor=300)
+    insts = collections.defaultdict(set)
+    for k in facts.astidx:
+        f = facts.F.get(k)
+        if f and f.get('clsq') == 'xalanc_1_12::FormatterToXMLUnicode':
+            insts[f['cls']].add(k)
+    done = set()
+    for cls, usrs in sorted(insts.items()):
+        ver = '1_1' if 'XML_VERSION_1_1' in cls else '1_0'
+        fam = 'UTF8' if 'XalanUTF8Writer,' in cls else ('UTF16' if 'XalanUTF16Writer,' in cls else 'OTHER')
+        if (ver, fam) in done or 'XalanIndentWriter<' in cls:
+            continue   # the escape functions do not depend on the indent handler: one instantiation per (version, writer family)
+        done.add((ver, fam))
+        functor = 'CharFunctor' + ver
+        p, tabs = predicates(facts, functor)
+        loc = 'src/xalanc/XMLSupport/FormatterToXMLUnicode.hpp'
+        for c in range(0x100):
+            if p['range'][c]:
+                continue
+            rc, ra, rm = required(ver, c)
+            outs = []
+            if p['content'][c]:
+                ev = escape_outcome(facts, usrs, 'writeDefaultEscape', {'ch': c}, p)
+                outs.append(('content', ev[0] if len(ev) == 1 else '+'.join(ev) or 'NOTHING', rc))
+            else:
+                outs.append(('content', 'RAW', rc))
+            if p['attribute'][c]:
+                ev = escape_outcome(facts, usrs, 'writeDefaultAttributeEscape', {'ch': c}, p)
+                outs.append(('attribute', ev[0] if len(ev) == 1 else '+'.join(ev) or 'NOTHING', ra))
+            else:
+                outs.append(('attribute', 'RAW', ra))
+            ev = escape_outcome(facts, usrs, 'writeNormalizedChar', {'ch': c, 'start': 0, 'length': 1, 'chars': 0}, p)
+            outs.append(('comment/PI', ev[0] if len(ev) == 1 else '+'.join(ev) or 'NOTHING', rm))
+            for what, got, allowed in outs:
+                site = 'XML %s %s writer: U+%04X in %s' % (ver.replace('_', '.'), fam, c, what)
+                if got in allowed:
+                    r.ok(site, got)
+                else:
+                    r.violation(site, 'the serializer code yields %s for U+%04X in %s, the XML rules require %s' % (got, c, what, '/'.join(sorted(allowed))), loc)
+    return r
+
+
+_run_r1_5 = run
+
+
+def run(res, facts, tier):
+    _run_r1_5(res, facts, tier)
+    r1c_derived(res, facts)
